@@ -31,6 +31,7 @@ InitSt == [hs |-> TRUE,            \* still in the opening handshake
            chclosed |-> {},        \* handles whose close() was already called
            lastwire |-> "",        \* method name of the last client frame on the wire
            finalwire |-> FALSE,    \* a Connection.Close / CloseOk has been written
+           cclosed |-> FALSE,      \* the client's own Connection.Close was queued (close point passed)
            pendw |-> FALSE,        \* the next transport write fails
            blkq |-> <<>>,          \* blocked-listener registrations sent, not yet handled
            ioev |-> 0,             \* number of I/O-thread records so far
@@ -192,7 +193,7 @@ TChanmsg ==
            ok == ~w.gone /\ h # "" /\ w.hs[h].pend # <<>> /\ KindNo(Head(w.hs[h].pend).k) = e.kind
        IN /\ Step(<< <<"C01:chan-order", ok>> >>)
           /\ w' = IF ok THEN Pull(w, e.ch) ELSE w
-          /\ st' = IoStep(w, w)
+          /\ st' = [IoStep(w, w) EXCEPT !.cclosed = @ \/ (ok /\ e.kind = 1)]
           /\ UNCHANGED <<ops, seen>>
 
 TAlloc ==
@@ -334,7 +335,7 @@ TRet ==
            \* an open call continues on the freshly allocated handle
            h == IF op = "open" /\ c.allocid >= 0 THEN c.as ELSE h0
            Judge(x) ==
-             CASE op \in {"closeconn"} -> CloseChecks(x, e)
+             CASE op \in {"closeconn"} -> IF c.sends THEN CloseChecks(x, e) ELSE <<>>
                [] op \in {"dropconn", "droph", "dropc"} -> <<>>            \* Drop returns nothing
                [] op = "open" ->
                     IF c.allocid >= 0 THEN SyncChecks(x, e, h, op) \o
@@ -370,7 +371,7 @@ TRet ==
                           /\ ~(op \in {"cancel", "close", "dropc", "droph"} /\ ~c.sends)
                           /\ ~(op = "open" /\ c.allocid < 0))
                       \/ (op \in NowaitOps /\ ~e.ok)
-           dropcase == op \in {"dropc", "droph", "dropconn"} /\ ~c.sends
+           dropcase == op \in {"dropc", "droph", "dropconn", "closeconn"} /\ ~c.sends
        IN /\ Step(Judge(x))
           /\ w' = IF pops /\ ~dropcase THEN PopReply(x, h) ELSE x
           /\ st' = IF useFired THEN [st EXCEPT !.pendw = FALSE] ELSE st
@@ -526,8 +527,9 @@ TEnd ==
                <<"C01:env", Rec[l].residue = 0 \/ w.fatal # "">>,
                <<"C08:last-frame",
                  (w.phase \in {"cliclosed"} /\ w.fatal = "") => st.lastwire = "connection.close">>,
+               \* (when both sides close at once the client's own Close stays its last frame)
                <<"C08:srv-last",
-                 (w.phase = "srvclosing" /\ w.fatal = "") => st.lastwire = "connection.close-ok">> >>)
+                 (w.phase = "srvclosing" /\ w.fatal = "" /\ ~st.cclosed) => st.lastwire = "connection.close-ok">> >>)
     /\ UNCHANGED <<w, ops, st, seen>>
 
 TOpened ==
